@@ -69,36 +69,36 @@ func combine(fields []st.Field) []st.Field {
 	new := st.Field{}
 	cur := ""
 	var out []st.Field
-	wasPad := true
+	flush := func() {
+		// The size of a struct is a multiple of its alignment.
+		new.Size = align(new.End-new.Start, new.Align)
+		new.End = new.Start + new.Size
+		out = append(out, new)
+	}
 	for _, field := range fields {
-		var prefix string
 		if field.IsPadding {
-			wasPad = true
 			continue
 		}
 		p := strings.Split(field.Name, ".")
-		prefix = strings.Join(p[:2], ".")
-		if field.Align > new.Align {
-			new.Align = field.Align
-		}
-		if !wasPad {
-			new.End = field.Start
-			new.Size = new.End - new.Start
-		}
+		prefix := strings.Join(p[:2], ".")
 		if prefix != cur {
 			if cur != "" {
-				out = append(out, new)
+				flush()
 			}
 			cur = prefix
 			new = field
 			new.Name = prefix
 		} else {
 			new.Type = "struct"
+			if field.Align > new.Align {
+				new.Align = field.Align
+			}
+			new.End = field.End
 		}
-		wasPad = false
 	}
-	new.Size = new.End - new.Start
-	out = append(out, new)
+	if cur != "" {
+		flush()
+	}
 	return out
 }
 
